@@ -64,4 +64,6 @@ VARIANTS += [
 VARIANTS += [
     M('C16', 'titles-equal-to-the-name-dropped', E(CW, "                if isinstance(titles, list):\n                    field.altnames = titles", "                if isinstance(titles, list):\n                    field.altnames = [t for t in titles if t != name]"),
       rule='C16-TITLES', key='titles:'),
+    M('C16', 'table-group-url-taken-from-the-first-table', E(CW, "            self._table.get('url') if self._table else None", "            self._csvw['tables'][0].get('url') if self._csvw.get('tables') else (self._table.get('url') if self._table else None)"),
+      rule='C16-TABLEGROUP', key='table_number=1'),
 ]
